@@ -5,5 +5,7 @@ CONSTANTS Seed = 0
   KFlags = {"O_CREAT","O_EXCL","O_TRUNC","O_APPEND","O_NOFOLLOW","O_DIRECTORY"}
   KKinds = {1}
   AForests = {1}
+  DForests = {1,2,3,4,5,6,7,8}
+  DFull = FALSE
 INIT Init
 NEXT Next
